@@ -2,6 +2,7 @@
 //! vdrive: executes schedules against the real iroh-docs code and records ndjson traces.
 //! It contains no oracle; TLC decides.
 
+mod actor;
 mod docs;
 mod heads;
 mod query;
@@ -84,6 +85,12 @@ fn main() {
             let mut rng = Rng::new(seed);
             query::run(&w, seed, &mut rng, args.num("n", 10) as usize, args.num("sample", 500) as usize,
                        &dir, &mut trace, &mut sum);
+        }
+        "actor" => {
+            let w = std::sync::Arc::new(World::new(seed, 3, 3));
+            let mut rng = Rng::new(seed);
+            let scheds = args.kv.get("schedules").map(|p| read_schedules(p)).unwrap_or_default();
+            actor::run(w, seed, &mut rng, scheds, args.num("n", 60) as usize, &dir, &mut trace, &mut sum);
         }
         "docs" => {
             let w = World::new(seed, 3, 7);
